@@ -846,7 +846,7 @@ impl LunarDay {
   /// let six_star: SixStar = LunarDay::from_ymd(2023, 1, 1).get_six_star();
   /// ```
   pub fn get_six_star(&self) -> SixStar {
-    SixStar::from_index((self.get_month() + self.day as isize - 2) % 6)
+    SixStar::from_index((self.month.get_month() as isize + self.day as isize - 2) % 6)
   }
 
   /// 公历日
